@@ -1,14 +1,16 @@
 //! C01 — tracker output contract: one record per detection, distinct tracks per call, fresh ids.
 use std::collections::{HashMap, HashSet};
 use vh::rng::Hasher;
+use vh::sched::{Controller, Mode};
 use vh::trk::*;
 use vh::{json, Cli, Report, Rng, Value};
 
 fn main() {
     let cli = Cli::parse();
     let mut rep = Report::new("C01", &cli);
-    rep.note("rule", json!("case = (tracker kind in {Sort, BatchSort, VisualSort, BatchVisualSort}, IoU(t)/Mahalanobis, shards 1..4, voting shards 1..4, history 1..10, max_idle 0..3, VisualSORT option grid) x history of 30..120 predict calls / batches over 1..3 scenes from the presets random / crossing / convoy / crowd / lookalikes / teleport / stop-and-go with duplicated detections, empty calls, appearing / disappearing objects, rotated boxes, with/without features. Monitor: lifecycle reference model advanced from the API boundary only: per call one record per detection in order, echoed observed box / custom id / scene (bit-exact; angle None == Some(0)), scene epoch, track length, no id twice within a call, a fresh id has never been issued and has length 1, no id of a handed-out track; batch results: one per submitted scene; 35% of the batch histories are run pipelined (consumer thread started before predict, next batch submitted while the previous one is drained); one stress case per process (8 voting threads, 48 scenes per batch, every detection a new track) hammers id allocation; the stored track (read through get_main_store().get_store()) agrees with the record. Non-trivial call: >= 2 detections with at least one continuation and one new track; distinct by hash of the call."));
+    rep.note("rule", json!("case = (tracker kind in {Sort, BatchSort, VisualSort, BatchVisualSort}, IoU(t)/Mahalanobis, shards 1..4, voting shards 1..4, history 1..10, max_idle 0..3, VisualSORT option grid) x history of 30..120 predict calls / batches over 1..3 scenes from the presets random / crossing / convoy / crowd / lookalikes / teleport / stop-and-go with duplicated detections, empty calls, appearing / disappearing objects, rotated boxes, with/without features. Monitor: lifecycle reference model advanced from the API boundary only: per call one record per detection in order, echoed observed box / custom id / scene (bit-exact; angle None == Some(0)), scene epoch, track length, no id twice within a call, a fresh id has never been issued and has length 1, no id of a handed-out track; batch results: one per submitted scene; half of the batch histories are run pipelined under seeded delay plans (consumer thread started before predict, next batch submitted while the previous one is drained); one stress case per process (8 voting threads, 48 scenes per batch, every detection a new track) hammers id allocation; the stored track (read through get_main_store().get_store()) agrees with the record. Non-trivial call: >= 2 detections with at least one continuation and one new track; distinct by hash of the call."));
     rep.note("assumptions", json!(["batch trackers: a scene appears at most once per batch (the request type is keyed by scene)", "Some(0.0) and None angles denote the same box"]));
+    let ctl = if cli.small { None } else { Some(Controller::install()) };
     let n = cli.cases(160, 2400);
     for idx in cli.index_range(n) {
         let mut rng = Rng::for_case(cli.seed, cli.shard, idx);
@@ -28,6 +30,7 @@ fn main() {
             low_quality: rng.chance(0.3),
             avoid_coincident: kind.is_visual() && (cfg.vis.own_use + cfg.vis.own_collect > 0.0),
             low_conf: rng.chance(0.15),
+            vary_nobj: false,
         };
         let h = HistOpts { len: if cli.small { 6 } else { 30 + rng.usize(91) }, lifecycle_ops: false, clear_wasted: false, auto_waste_ops: false, batches: kind.is_batch(), empty_calls: true };
         let ops = gen_history(&mut rng, &w, &h);
@@ -38,8 +41,12 @@ fn main() {
         // batch kinds, 35%: pipelined use - every batch is handed to a consumer thread started before predict and the
         // next batch is submitted while the previous one is still being drained; the contract is then checked on the
         // results taken in submission order
-        if kind.is_batch() && rng.chance(0.35) {
+        if kind.is_batch() && rng.chance(0.5) {
             rep.count("histories/pipelined-consumer-thread");
+            // seeded random delays at the voting / batch schedule points widen the windows between the pipeline stages
+            if let Some(c) = &ctl {
+                c.set_mode(Mode::Delay { seed: rng.u64(), intensity: 50, max_sleep_us: 1200 });
+            }
             let batches: Vec<&Vec<(u64, Vec<Det>)>> = ops.iter().filter_map(|o| if let Op::Batch(b) = o { Some(b) } else { None }).collect();
             let pending: Vec<_> = batches.iter().map(|b| trk.submit_with_consumer(b)).collect();
             for (bi, (b, rx)) in batches.iter().zip(pending).enumerate() {
@@ -71,6 +78,10 @@ fn main() {
                 if bad {
                     break;
                 }
+            }
+            drop(trk);
+            if let Some(c) = &ctl {
+                c.finish();
             }
             continue;
         }
